@@ -266,12 +266,20 @@ fn get_match_statically_known(
     provider.query_variable = &query_variable;
     provider.query_function = &asm::resolver::get_statically_known_builtin_fn;
 
+    // Arguments are written in the context of the instruction,
+    // so rule parameters must not be visible while inspecting them
+    let mut arg_provider = expr::StaticallyKnownProvider::new();
+    arg_provider.query_variable = &query_variable;
+    arg_provider.query_function = &asm::resolver::get_statically_known_builtin_fn;
+
     for i in 0..rule.parameters.len()
     {
         let param = &rule.parameters[i];
         let arg = &mtch.args[i];
 
-        match param.typ
+        // Every parameter shadows any global symbol of the same name
+        // within the rule's production, whether its value is known or not
+        let value_known = match param.typ
         {
             asm::RuleParameterType::Unspecified |
             asm::RuleParameterType::Integer(_) |
@@ -280,15 +288,11 @@ fn get_match_statically_known(
             {
                 if let InstructionArgumentKind::Expr(ref arg_expr) = arg.kind
                 {
-                    if arg_expr.is_value_statically_known(&provider)
-                    {
-                        provider.locals.insert(
-                            param.name.clone(),
-                            expr::StaticallyKnownLocal {
-                                value_known: true,
-                                ..expr::StaticallyKnownLocal::new()
-                            });
-                    }
+                    arg_expr.is_value_statically_known(&arg_provider)
+                }
+                else
+                {
+                    false
                 }
             }
 
@@ -296,22 +300,25 @@ fn get_match_statically_known(
             {
                 if let asm::InstructionArgumentKind::Nested(ref nested_match) = arg.kind
                 {
-                    if get_match_statically_known(
+                    get_match_statically_known(
                         decls,
                         defs,
                         symbol_ctx,
                         nested_match)
-                    {
-                        provider.locals.insert(
-                            param.name.clone(),
-                            expr::StaticallyKnownLocal {
-                                value_known: true,
-                                ..expr::StaticallyKnownLocal::new()
-                            });
-                    }
+                }
+                else
+                {
+                    false
                 }
             }
-        }
+        };
+
+        provider.locals.insert(
+            param.name.clone(),
+            expr::StaticallyKnownLocal {
+                value_known,
+                ..expr::StaticallyKnownLocal::new()
+            });
     }
 
     rule.expr.is_value_statically_known(&provider)
